@@ -373,3 +373,94 @@ def rule_null_pair(ctx, R, F):
                 found='new via %s, delete via %s size %s' % ([alloc_cls(c) for c in an], [alloc_cls(c) for c in ad], [val(c['a'][1]) for c in ad]))
     if n < 24:
         raise AnalysisBroken('LIFE-PAIR: only %d VM class instantiations with operator new/delete' % n)
+
+
+# ---------------------------------------------------------------------------------------------
+NOTHROW_C = re.compile(r'^(mem(cpy|set|move|cmp)|__builtin_.*|str(len|cmp|ncmp)|abs|std::(min|max|move|forward|swap|addressof|memcpy|memset))$')
+THROWING_STD = ('reserve', 'resize', 'push_back', 'emplace_back', 'assign', 'insert', 'emplace', 'append', 'at', 'operator=', 'operator+=', 'shrink_to_fit', 'vector', 'basic_string', 'string', 'function')
+NOTHROW_STD = ('size', 'data', 'begin', 'end', 'cbegin', 'cend', 'empty', 'clear', 'operator[]', 'front', 'back', 'capacity', 'c_str', 'length', 'get', 'swap', 'pop_back')
+
+
+def may_throw(F, node, acquired, depth=0, seen=None):
+    """[(node, reason)] for expressions below `node` that can raise an exception; a throw that is guarded by a null test of the acquired pointer is
+    the failure path of the acquisition itself (nothing has been acquired) and is not counted"""
+    seen = seen if seen is not None else set()
+    out = []
+    par = parents_map(node)
+    skip = set()
+    for x in walk(node):
+        if id(x) in skip:
+            continue
+        if x['k'] == 'Throw':
+            guarded = False
+            n = x
+            while id(n) in par:
+                n = par[id(n)]
+                if n['k'] == 'If':
+                    c = show(n['c'])
+                    if any(a and a in c for a in acquired) and ('nullptr' in c or c.strip('()').startswith('!') or '== 0' in c):
+                        guarded = True
+                        break
+            for y in walk(x):
+                skip.add(id(y))       # the exception object of this throw is part of it
+            if not guarded:
+                out.append((x, 'throw'))
+        elif x['k'] == 'New':
+            out.append((x, 'operator new'))
+        elif x['k'] == 'Construct' and not x.get('trivial') and str(x.get('ty', '')).startswith('std::') and x.get('a'):
+            out.append((x, 'constructor of %s' % x.get('ty')))
+        elif x['k'] == 'Call':
+            nm = x.get('name') or ''
+            fn = x.get('fn') or ''
+            cls = x.get('cls') or ''
+            if x.get('builtin') or NOTHROW_C.match(nm) or NOTHROW_C.match(fn):
+                continue
+            if cls.startswith('std::') or fn.startswith('std::'):
+                base = nm
+                if base in THROWING_STD:
+                    out.append((x, 'std:: member %s (may allocate)' % nm))
+                elif base in NOTHROW_STD:
+                    continue
+                else:
+                    raise AnalysisBroken('LIFE-CTOR: exception behaviour of %s is not in the checker\'s tables' % (fn or nm))
+                continue
+            if fn and F.has_func(fn) and F.func(fn).get('body') is not None:
+                if fn in seen or depth > 3:
+                    continue
+                seen.add(fn)
+                sub = may_throw(F, F.func(fn)['body'], (), depth + 1, seen)
+                if sub:
+                    out.append((x, 'call of %s, which contains %s' % (fn, sub[0][1])))
+                continue
+            if x.get('ext') or not fn:
+                # C library / assembly entry points / function pointers into generated code: cannot unwind through them
+                continue
+    return out
+
+
+def rule_ctor(ctx, R, config='K0', classes=('randomx::JitCompilerX86',)):
+    F = astq.Facts(ctx, config)
+    R.rule('LIFE-CTOR', 'a constructor that maps memory which only its destructor unmaps performs nothing that can throw after the mapping succeeded (the destructor of a partially constructed object never runs, '
+           'so an exception there leaks the mapping although the creating API call reports failure)', min_instances=1)
+    for cls in classes:
+        short = cls.split('::')[-1]
+        if not F.has_func('%s::%s' % (cls, short)):
+            raise AnalysisBroken('LIFE-CTOR: constructor of %s not found in %s' % (cls, config))
+        f = F.func('%s::%s' % (cls, short))
+        d = F.func('%s::~%s' % (cls, short))
+        released = [show(c['a'][0]).replace('this->', '') for c in calls(d['body']) if c.get('name') in ('freePagedMemory',)]
+        if not released:
+            raise AnalysisBroken('LIFE-CTOR: destructor of %s releases nothing' % cls)
+        seq = [i['e'] for i in f.get('inits', []) if astq.is_node(i.get('e'))] + (f['body']['s'] if f['body']['k'] == 'Compound' else [f['body']])
+        acq = None
+        for idx, st in enumerate(seq):
+            if any(c.get('name') in ('allocMemoryPages', 'allocLargePagesMemory') for c in calls(st)):
+                acq = idx
+                break
+        if acq is None:
+            raise AnalysisBroken('LIFE-CTOR: %s::%s maps nothing' % (cls, short))
+        bad = []
+        for st in seq[acq + 1:]:
+            bad += may_throw(F, st, tuple(released) + tuple('this->' + r for r in released))
+        R.check(not bad, '%s constructor [%s]' % (short, config), '%s:%d' % (f['file'], f['line']), expected='nothing that can throw after allocMemoryPages succeeded',
+                found=['%s at line %s' % (why, x.get('ln')) for x, why in bad[:3]] or 'nothing')
